@@ -176,6 +176,12 @@ locate_once!(c13_locate_once_ascii, [0, 1, 0]);
 // @fns LinearLocator::locate LinearLocator::locate_inner RandomLocator::locate
 locate_once!(c13_locate_once_utf8, [0xC3, 0xA9, 1, 0]);
 
+// @ob id=C13.k.locate_once_bom props=C13 kind=bounded tier=quick timeout=900
+// @bound texts with the layout [0xEF, 0xBB, 0xBF, 0, 1, 0] (BOM x LF x); every offset outside the BOM; one query on a fresh cursor
+// @clause a leading BOM is not counted as a column and does not shift where line 1 ends, identically in both locators
+// @fns LinearLocator::locate LinearLocator::locate_inner LinearLocatorState::init RandomLocator::locate
+locate_once!(c13_locate_once_bom, [0xEF, 0xBB, 0xBF, 0, 1, 0]);
+
 // @ob id=C13.k.locators_agree_t1 props=C13 kind=bounded tier=thorough timeout=2400
 // @bound texts with the layout [1, 0] (LF x); all pairs of non-decreasing offsets (the linear cursor has to move onto the second line)
 // @clause linear-scan and indexed locator agree also after the linear cursor moved forward from an earlier offset
